@@ -538,9 +538,15 @@ impl<'u> Run<'u> {
                 let with_fp = integ != "corrupt" && (self.seed + self.resp_cls_toggle) % 3 == 0;
                 // "corrupt" = an integrity attribute that validates under no key: a flipped HMAC bit, or an
                 // attribute of an illegal length (which the parser lets through and validation must refuse)
-                let corrupt_style = if integ == "corrupt" { (self.seed + self.resp_cls_toggle) % 6 } else { 0 };
+                let corrupt_style = if integ == "corrupt" { (self.seed + self.resp_cls_toggle) % 9 } else { 0 };
                 let mut bytes;
-                if corrupt_style >= 1 {
+                if corrupt_style >= 6 {
+                    // the RIGHT HMAC-SHA256 under the agent's remote key, cut to a length the RFC does not allow (1, 8, 12 bytes):
+                    // a prefix comparison would take it
+                    let n = [1usize, 8, 12][(corrupt_style - 6) as usize];
+                    let key = self.u.descs[signer_name.as_ref().unwrap()].key();
+                    bytes = ext::seal(b.build(), &key, true, n);
+                } else if corrupt_style >= 1 {
                     let (sha256, n) = [(false, 16usize), (false, 24), (true, 12), (true, 36), (true, 18)][(corrupt_style - 1) as usize];
                     let junk: Vec<u8> = (0..n).map(|i| (i as u8).wrapping_mul(37).wrapping_add(self.seed as u8)).collect();
                     bytes = ext::append_raw_integrity(b.build(), sha256, &junk);
